@@ -245,6 +245,26 @@ def r_esc(prog, tier):
                               ('a token containing ( or ) is written verbatim into the bracketing' if verdict is False else
                                'the replacement is done in a form this rule does not model'),
                               construct='esc-brackets', line=n.lineno))
+    # the label of a token is written after the replacement as well (the replacement covers every field of the token)
+    rc = [m for m in cfg.eval_nodes() if m.kind == 'stmt' and any(
+        isinstance(x, ast.Call) and prog.callee(x, f) == ('trees', 'replace_chars') for x in walk_own(m.ast))]
+    if rc:
+        r0 = rc[0]
+        same_branch = [x[0] for x in facts_at(cfg, r0.id)]
+        for m in cfg.eval_nodes():
+            if m.kind != 'stmt' or m.id == r0.id:
+                continue
+            for sub in walk_own(m.ast):
+                if isinstance(sub, ast.Call) and unparse(sub.func) == '%s.write' % stream and any(
+                        isinstance(y, ast.Call) and prog.callee(y, f) == ('trees', 'get_label') for y in ast.walk(sub)):
+                    if [x[0] for x in facts_at(cfg, m.id)] != same_branch:
+                        continue            # the label of a constituent: another branch
+                    after = cfg.dominates(r0.id, m.id)
+                    before = cfg.dominates(m.id, r0.id)
+                    obs.append(Ob('R-ESC', f.fq, 'the label of a token is written after its parentheses were mapped', True if after else
+                                  (False if before else None), 'written after trees.replace_chars(...)' if after else
+                                  'the label is written BEFORE trees.replace_chars(...) in the same branch: a tag or function '
+                                  'containing a parenthesis goes out verbatim', construct='esc-brackets-label', line=m.lineno))
     if found == 0:
         raise Unrecognised('write_brackets_subtree writes no token')
     return obs, {'xml_string_sinks': nsinks}
